@@ -165,6 +165,9 @@ impl Session {
             .await
             .expect(&format!("Can't bind to port {}", PORT));
 
+        #[cfg(feature = "verif")]
+        crate::verif::publish_listen_addr(listener.local_addr().ok());
+
         let mut change_state_timer = self.start_change_conn_state_timer();
 
         loop {
